@@ -96,6 +96,18 @@ def ColFile.readRow (f : ColFile) (doc : Nat) : List Nat :=
 def ColFile.read (f : ColFile) : Column Nat :=
   (List.range (f.idx.numDocs f.vals.length)).map f.readRow
 
+/-! ## Str / Bytes column files: `[dictionary][u64 column file of term ordinals][dictionary len: u32 LE]` -/
+
+/-- mirrors: merge_bytes_or_str_column / the writer's bytes column layout (the dictionary is an
+sstable, opaque here) -/
+def bytesColumnFileEnc (dict colFile : Bytes) : Bytes := dict ++ colFile ++ leBytes 4 dict.length
+
+/-- mirrors: open_column_bytes — (dictionary bytes, the term ordinal column) -/
+def openBytesColumnFile (b : Bytes) : Option (Bytes × ColFile) := do
+  let (d, c) ← splitByFooter b
+  let f ← openColumnFile c
+  some (d, f)
+
 /-! ## u128 (IP address) column files: same layout, compact-space values -/
 
 /-- every value of an opened compact-space column (`get_val` for each row) -/
